@@ -16,7 +16,25 @@ PrmMsa == {[P0 EXCEPT !.hasmsa = hm, !.msa = ms, !.buf = bf, !.h0 = a, !.h8 = b]
 PrmBase == {[P0 EXCEPT !.p = pp, !.lb = lb, !.excl = ex, !.h0 = a] :
              pp \in {0, 50, 100}, lb \in {100, 50, 34}, ex \in {<<>>, <<"a">>, <<"b">>}, a \in {0, 1}}
 \* class 3: two separation bins, splitting allowed from 1 okta
-PrmSep == {[P0 EXCEPT !.p = pp, !.lb = lb, !.sepv = <<250, 1000>>, !.sepl = <<1000>>, !.minokta = 1, !.excl = ex] :
-             pp \in {0, 50}, lb \in {100, 50}, ex \in {<<>>, <<"b">>}}
+PrmSep == {[P0 EXCEPT !.p = pp, !.lb = lb, !.sepv = sv, !.sepl = sl, !.minokta = 1, !.minpts = 2, !.excl = ex, !.h0 = a] :
+             pp \in {0, 50, 100}, lb \in {100, 50, 34}, ex \in {<<>>, <<"a">>, <<"b">>}, a \in {0, 1},
+             sv \in {<<250, 400>>}, sl \in {<<1225>>, <<1250>>}}
 PrmOne == {P0}
+LatticeC == {1000, 1200, 1250, 1600}
+\* quick classes
+PrmMsaQ == {P0} \cup {[P0 EXCEPT !.hasmsa = TRUE, !.msa = ms, !.buf = bf, !.h0 = a] :
+                        ms \in {0, 1000, 1100}, bf \in {0, 200}, a \in {0, 1}}
+PrmOkta == {[P0 EXCEPT !.h0 = a, !.h8 = b] : a \in {0, 1, 2}, b \in {0, 1, 2}}
+PrmBaseQ == {[P0 EXCEPT !.p = pp, !.lb = lb, !.excl = ex, !.h0 = 1] :
+             pp \in {0, 50}, lb \in {100, 50}, ex \in {<<>>, <<"a">>}}
+PrmSplit == {[P0 EXCEPT !.minokta = 1, !.minpts = 2, !.hasmsa = hm, !.msa = 1100, !.buf = 0, !.sepv = <<sv, 1000>>] :
+             hm \in BOOLEAN, sv \in {100, 250}}
+PrmSepQ == {[P0 EXCEPT !.p = 50, !.lb = lb, !.sepv = <<250, 400>>, !.sepl = <<1225>>, !.minokta = 1, !.minpts = 2, !.excl = ex] :
+             lb \in {100, 50}, ex \in {<<>>, <<"b">>}}
+LatticeD == {1000, 1200, 1250}
+\* instances on which the two repaired defects show at design level (sensitivity of the model)
+LatticeE == {1000, 1200, 1400}
+LatticeF == {1000, 1200, 1600}
+PrmPinM == {[P0 EXCEPT !.p = 50, !.excl = <<"b">>]}
+PrmPinO == {[P0 EXCEPT !.p = 0, !.lb = 50, !.minokta = 1, !.minpts = 2]}
 =============================================================================
